@@ -22,10 +22,11 @@ import (
 //	   server: st = store; a command touching a bad key fails as a whole with that error;
 //	   an = anomaly applied to array replies (one element too many / too few / not an array)
 //	!<fn> ...   oracle: every distinct input key, mapped to the store's value / its own error
+//	!mk cmds=<argv;argv;..>   oracle (cluster client): every command sent addresses one slot only
 //	grp fn=<mgets|mdels|jsonmgets|msets|msetnxs|jsonmsets> keys=|kv= [path=]
 func init() {
 	suites["multikey"] = suite{
-		rule: "key lists with duplicates, hash tags forcing 1..many slots, empty and binary keys x 4 client kinds x 8 helpers x scripted server (store, failing keys with redis/transport errors, array replies of wrong length/type); exhaustive: all key lists up to length 3 over {a,b,{t}a,{t}b} x {single,cluster} x {mget,mgetcache,mdel}; non-trivial = distinct op with at least 2 keys",
+		rule: "key lists with duplicates, hash tags forcing 1..many slots, empty and binary keys x 4 client kinds x 8 helpers x scripted server (store, failing keys with redis/transport errors, array replies of wrong length/type); interleaved slot patterns (ABAA, AABA, ABCAB, ... with and without duplicates) x 7 helpers on the cluster-type client whose nodes refuse cross-slot commands; exhaustive: all key lists up to length 3 over {a,b,{t}a,{t}b} x {single,cluster} x {mget,mgetcache,mdel}; non-trivial = distinct op with at least 2 keys",
 		run:  runMultiKey,
 		replay: func(c *Ctx, lines []string) {
 			for _, l := range lines {
@@ -39,9 +40,46 @@ func init() {
 }
 
 type mkSrv struct {
-	store map[string]string
-	bad   map[string]reply
-	an    string
+	store   map[string]string
+	bad     map[string]reply
+	an      string
+	cluster bool // cluster node: a command whose keys hash to different slots is refused
+}
+
+const crossSlotText = "CROSSSLOT Keys in request don't hash to the same slot"
+
+// cmdKeys returns the keys of a command the helpers can send (by command name).
+func cmdKeys(argv []string) []string {
+	if len(argv) == 0 {
+		return nil
+	}
+	rest := argv[1:]
+	switch argv[0] {
+	case "MGET", "DEL":
+		return rest
+	case "JSON.MGET":
+		return rest[:max(len(rest)-1, 0)]
+	case "GET", "JSON.GET", "SET", "JSON.SET":
+		if len(rest) > 0 {
+			return rest[:1]
+		}
+		return nil
+	case "MSET", "MSETNX":
+		return everyNth(2, rest)
+	case "JSON.MSET":
+		return everyNth(3, rest)
+	}
+	return nil
+}
+
+func mixesSlots(argv []string) bool {
+	ks := cmdKeys(argv)
+	for _, k := range ks {
+		if cmds.Slot(k) != cmds.Slot(ks[0]) {
+			return true
+		}
+	}
+	return false
 }
 
 func parsePairs(s string) [][2]string {
@@ -100,6 +138,9 @@ func everyNth(n int, l []string) []string {
 func (sv *mkSrv) answer(argv []string) reply {
 	name, rest := argv[0], argv[1:]
 	ok := reply{kind: 's', text: "OK"}
+	if sv.cluster && mixesSlots(argv) {
+		return reply{kind: 'e', text: crossSlotText}
+	}
 	arrReply := func(keys []string) reply {
 		if r, bad := sv.firstBad(keys); bad {
 			return r
@@ -295,6 +336,7 @@ func mkOp(c *Ctx, line string) {
 	}
 	path := unhx(optField(ws, "path", "-"))
 	sv := parseMkSrv(ws)
+	sv.cluster = mode == "cluster"
 	f := newFake(sv.answer)
 	client := mkClient(mode, nocache, f)
 	ctx := context.Background()
@@ -340,6 +382,23 @@ func mkOp(c *Ctx, line string) {
 	nk := len(keys) + len(kvKeys)
 	c.Emit(line, "sent="+renderCalls(f.log, kvFamily, width)+" out="+out, nk >= 2)
 
+	if mode == "cluster" {
+		// oracle: every command handed to the cluster client addresses one slot only (else a key
+		// travels with another slot's command and a real node answers CROSSSLOT / MOVED)
+		var all []string
+		for _, cl := range f.log {
+			for _, sc := range cl.cmds {
+				all = append(all, hxList(sc.argv))
+				if mixesSlots(sc.argv) {
+					c.Fail("multikey:key-mapped-to-foreign-reply", line, "command "+hxList(sc.argv)+" mixes keys of different slots")
+				}
+			}
+		}
+		if kvFamily {
+			sort.Strings(all)
+		}
+		c.Emit("!mk cmds="+joinList(all, ";"), "ok", false)
+	}
 	// oracle: on a well-behaved server every distinct input key maps to the store's value
 	// (get family) / to its own error (set family on a cluster-type client, where every key has
 	// its own command; on the other clients only when nothing fails)
@@ -367,10 +426,18 @@ func mkOp(c *Ctx, line string) {
 				got[kv[0]] = kv[1]
 			}
 			if fmt.Sprint(want) != fmt.Sprint(got) {
-				c.Fail("multikey:"+op+":"+mode+":wrong-entry", line, "returned map "+out+" differs from the store")
+				key := "multikey:" + op + ":" + mode + ":wrong-entry"
+				if mode == "cluster" {
+					key = "multikey:key-mapped-to-foreign-reply"
+				}
+				c.Fail(key, line, "returned map "+out+" differs from the store")
 			}
 		} else if getFamily {
-			c.Fail("multikey:"+op+":"+mode+":no-map", line, "well-behaved server but the helper returned "+out)
+			key := "multikey:" + op + ":" + mode + ":no-map"
+			if mode == "cluster" {
+				key = "multikey:key-mapped-to-foreign-reply"
+			}
+			c.Fail(key, line, "well-behaved server and valid key set but the helper returned "+out)
 		}
 	}
 }
@@ -467,6 +534,39 @@ func runMultiKey(c *Ctx) {
 			}
 		}
 		mkOp(c, fmt.Sprintf("grp fn=mgets keys=%s", hxList(l)))
+	}
+	// ---- interleaved slot patterns on the cluster client (a slot re-appears after another one)
+	slotTags := []string{"{a}", "{b}", "{c}"}
+	for _, pat := range []string{"ABAA", "AABA", "ABCAB", "ABAB", "ABBA", "ABACA", "AABB", "ABCABC", "ABAAB", "BAABA"} {
+		for variant := 0; variant < 2; variant++ {
+			keys := make([]string, len(pat))
+			for i, ch := range pat {
+				keys[i] = slotTags[ch-'A'] + string(rune('a'+i))
+				if variant == 1 && i >= 2 && pat[i] == pat[i-2] {
+					keys[i] = keys[i-2] // duplicate of the same slot
+				}
+			}
+			var stp, kv [][2]string
+			seen := map[string]bool{}
+			for i, k := range keys {
+				if !seen[k] {
+					kv = append(kv, [2]string{k, hx("n" + strconv.Itoa(i))})
+					if i%3 != 1 {
+						stp = append(stp, [2]string{k, hx("val:" + k)})
+					}
+				}
+				seen[k] = true
+			}
+			srv := fmt.Sprintf("st=%s bad=_ an=none", pairsStr(stp))
+			mkOp(c, fmt.Sprintf("mget mode=cluster keys=%s %s", hxList(keys), srv))
+			mkOp(c, fmt.Sprintf("jsonmget mode=cluster keys=%s path=%s %s", hxList(keys), hx("$"), srv))
+			mkOp(c, fmt.Sprintf("mgetcache mode=cluster nocache=0 keys=%s %s", hxList(keys), srv))
+			mkOp(c, fmt.Sprintf("jsonmgetcache mode=cluster keys=%s path=%s %s", hxList(keys), hx("$"), srv))
+			mkOp(c, fmt.Sprintf("mdel mode=cluster keys=%s %s", hxList(keys), srv))
+			mkOp(c, fmt.Sprintf("mset mode=cluster kv=%s %s", pairsStr(kv), srv))
+			mkOp(c, fmt.Sprintf("jsonmset mode=cluster kv=%s path=%s %s", pairsStr(kv), hx("$"), srv))
+			mkOp(c, fmt.Sprintf("grp fn=mgets keys=%s", hxList(keys)))
+		}
 	}
 	// ---- random
 	tags := []string{"{a}", "{b}", "{c}", "{06S}", "{Qi}", ""} // {06S} and {Qi} share a slot
